@@ -46,7 +46,7 @@ func (*check) NumCases(tier string) int {
 	if tier == "thorough" {
 		return 10000 // 1 000 000 pods
 	}
-	return 200 // 20 000 pods
+	return 400 // 20 000 pods
 }
 func (*check) Rule() string {
 	return fmt.Sprintf("a case = %d pods drawn from the PCG stream (seed, case index): annotation strings for gpu-fraction / gpu-memory / gpu-fraction-num-devices from a grammar "+
